@@ -146,7 +146,7 @@ Qed.
 
 (* ------------------------------------------------------------------ registry *)
 Definition pool_id (p : pool) : fam * N := (p_fam p, p_key p).
-Definition psig (p : pool) : fam * N * geom := (p_fam p, p_key p, p_geom p).
+Definition psig (p : pool) : fam * N * N * geom := (p_fam p, p_key p, p_vrf p, p_geom p).
 
 Lemma fam_eqb_spec a b : fam_eqb a b = true <-> a = b.
 Proof. destruct a, b; simpl; split; intros H; try discriminate; auto. Qed.
@@ -171,8 +171,9 @@ Qed.
 Definition reg_ok (r : reg) : Prop := NoDup (map pool_id (pools r)) /\ Forall pool_wf (pools r).
 
 Definition owns (r : reg) (f : fam) (vrf : N) (x : item) (s : N) : Prop :=
-  (exists p sl, In p (pools r) /\ p_fam p = f /\ slot_of (p_geom p) x = Some sl /\ lease_of p sl = Some s)
-  \/ ((forall p, In p (pools r) -> p_fam p = f -> slot_of (p_geom p) x = None) /\
+  (exists p sl, In p (pools r) /\ p_fam p = f /\ p_vrf p = vrf /\ slot_of (p_geom p) x = Some sl /\
+                lease_of p sl = Some s)
+  \/ ((forall p, In p (pools r) -> p_fam p = f -> p_vrf p = vrf -> slot_of (p_geom p) x = None) /\
       sassoc (f, vrf, x) (statics r) = Some s).
 
 Definition same_shape (r r' : reg) : Prop := map psig (pools r') = map psig (pools r).
@@ -213,18 +214,19 @@ Proof.
   - simpl. apply Forall_forall. intros q' Hq'. apply in_map_iff in Hq'. destruct Hq' as (q & <- & Hq).
     apply HG; exact Hq.
   - exact Hsig.
-  - intros t f v x Pt [ (p & sl & Hin & Hf & Hs & Hl) | [Hnone Hst] ].
+  - intros t f v x Pt [ (p & sl & Hin & Hf & Hv & Hs & Hl) | [Hnone Hst] ].
     + left. exists (G p), sl. destruct (HG p Hin) as (Hsg & _ & Hls).
-      unfold psig in Hsg. inversion Hsg as [[Hf' Hk' Hg']].
+      unfold psig in Hsg. inversion Hsg as [[Hf' Hk' Hv' Hg']].
       repeat split; simpl.
       * apply in_map; exact Hin.
       * congruence.
+      * congruence.
       * rewrite Hg'. exact Hs.
       * apply Hls; auto.
-    + right. split; [|exact Hst]. simpl. intros p' Hin' Hf'.
+    + right. split; [|exact Hst]. simpl. intros p' Hin' Hf' Hv'.
       apply in_map_iff in Hin'. destruct Hin' as (q & <- & Hq).
-      destruct (HG q Hq) as (Hsg & _ & _). unfold psig in Hsg. inversion Hsg as [[Hf2 Hk2 Hg2]].
-      rewrite Hg2. apply Hnone; auto. congruence.
+      destruct (HG q Hq) as (Hsg & _ & _). unfold psig in Hsg. inversion Hsg as [[Hf2 Hk2 Hv2 Hg2]].
+      rewrite Hg2. apply Hnone; auto; congruence.
 Qed.
 
 Lemma upd_pool_ok (P : N -> Prop) r p p' :
@@ -261,11 +263,11 @@ Definition anyone (t : N) : Prop := True.
 Definition other_than (s : N) (t : N) : Prop := t <> s.
 
 (* ---- allocation: nobody loses anything, the answer is owned by the session *)
-Lemma alloc_in_ok r p s f r' res :
-  reg_ok r -> In p (pools r) -> p_fam p = f -> In (r', res) (alloc_in r p s) ->
-  step_ok anyone r r' /\ exists x k, res = Some (x, k) /\ forall v, owns r' f v x s.
+Lemma alloc_in_ok r p s f vrf r' res :
+  reg_ok r -> In p (pools r) -> p_fam p = f -> p_vrf p = vrf -> In (r', res) (alloc_in r p s) ->
+  step_ok anyone r r' /\ exists x k, res = Some (x, k) /\ owns r' f vrf x s.
 Proof.
-  intros Hok Hin Hf Hc. unfold alloc_in in Hc. apply in_map_iff in Hc.
+  intros Hok Hin Hf Hv Hc. unfold alloc_in in Hc. apply in_map_iff in Hc.
   destruct Hc as (sl & Heq & Hsl). inversion Heq; subst r' res; clear Heq.
   assert (Hwf : pool_wf p) by (destruct Hok as [_ HF]; eapply Forall_forall in HF; eauto).
   destruct Hwf as (Hg & Hnd & Hfl & Hfv & Hlv).
@@ -275,10 +277,11 @@ Proof.
     + intros W. apply take_wf; auto.
     + intros sl' t _ Hl. rewrite take_lease. destruct (sl =? sl') eqn:E; auto.
       apply N.eqb_eq in E; subst sl'. rewrite (Hfl _ Hsl) in Hl. discriminate.
-  - eexists _, _. split; [reflexivity|]. intros v. left. exists (pool_take p sl s), sl.
+  - eexists _, _. split; [reflexivity|]. left. exists (pool_take p sl s), sl.
     repeat split.
     + apply upd_pool_in with (p := p); auto.
     + exact Hf.
+    + exact Hv.
     + apply Hfv; exact Hsl.
     + rewrite take_lease, N.eqb_refl. reflexivity.
 Qed.
@@ -288,33 +291,39 @@ Proof. intros H. apply find_some in H. exact H. Qed.
 
 Lemma alloc_walk_ok f prof vrf s r r' res :
   reg_ok r -> In (r', res) (alloc_walk f prof vrf s r) ->
-  step_ok anyone r r' /\ (res = None \/ exists x k, res = Some (x, k) /\ forall v, owns r' f v x s).
+  step_ok anyone r r' /\ (res = None \/ exists x k, res = Some (x, k) /\ owns r' f vrf x s).
 Proof.
   intros Hok. unfold alloc_walk.
   destruct (find _ (fam_pools f r)) as [p|] eqn:E.
-  - apply find_in in E. destruct E as [E _]. apply fam_pools_in in E. destruct E as [Hin Hf].
-    intros Hc. destruct (alloc_in_ok _ _ _ _ _ _ Hok Hin Hf Hc) as [A B]. split; auto.
+  - apply find_in in E. destruct E as [E Ec]. apply fam_pools_in in E. destruct E as [Hin Hf].
+    assert (Hv : p_vrf p = vrf).
+    { apply andb_true_iff in Ec. destruct Ec as [Ec _]. apply andb_true_iff in Ec. destruct Ec as [_ Ec].
+      apply N.eqb_eq; exact Ec. }
+    intros Hc. destruct (alloc_in_ok _ _ _ _ _ _ _ Hok Hin Hf Hv Hc) as [A B]. split; auto.
   - intros [H|[]]. inversion H; subst. split; [apply step_ok_refl|left; reflexivity].
 Qed.
 
 Lemma alloc_from_profile_ok f prof ov vrf s r r' res :
-  reg_ok r -> In (r', res) (alloc_from_profile f prof ov vrf s r) ->
-  step_ok anyone r r' /\ (res = None \/ exists x k, res = Some (x, k) /\ forall v, owns r' f v x s).
+  reg_ok r -> In (r', res) (alloc_from_profile Repaired f prof ov vrf s r) ->
+  step_ok anyone r r' /\ (res = None \/ exists x k, res = Some (x, k) /\ owns r' f vrf x s).
 Proof.
-  intros Hok. unfold alloc_from_profile.
+  intros Hok. unfold alloc_from_profile. change (d9 Repaired) with false. cbn [orb].
   destruct ov as [k|]; [|apply alloc_walk_ok; exact Hok].
   destruct (find _ (fam_pools f r)) as [p|] eqn:E; [|apply alloc_walk_ok; exact Hok].
   destruct (isnil (p_free p)); [apply alloc_walk_ok; exact Hok|].
-  apply find_in in E. destruct E as [E _]. apply fam_pools_in in E. destruct E as [Hin Hf].
-  intros Hc. destruct (alloc_in_ok _ _ _ _ _ _ Hok Hin Hf Hc) as [A B]. split; auto.
+  apply find_in in E. destruct E as [E Ec]. apply fam_pools_in in E. destruct E as [Hin Hf].
+  assert (Hv : p_vrf p = vrf).
+  { apply andb_true_iff in Ec. destruct Ec as [_ Ec]. apply N.eqb_eq; exact Ec. }
+  intros Hc. destruct (alloc_in_ok _ _ _ _ _ _ _ Hok Hin Hf Hv Hc) as [A B]. split; auto.
 Qed.
 
 (* ---- reservation: nobody loses anything; on success the address is owned by the session *)
-Lemma reserve_in_ok r p x s f r' ok :
-  reg_ok r -> In p (pools r) -> p_fam p = f -> contains p x = true -> reserve_in r p x s = (r', ok) ->
-  step_ok anyone r r' /\ (ok = true -> forall v, owns r' f v x s).
+Lemma reserve_in_ok r p x s f vrf r' ok :
+  reg_ok r -> In p (pools r) -> p_fam p = f -> p_vrf p = vrf -> contains p x = true ->
+  reserve_in r p x s = (r', ok) ->
+  step_ok anyone r r' /\ (ok = true -> owns r' f vrf x s).
 Proof.
-  intros Hok Hin Hf Hc. unfold reserve_in, contains in *.
+  intros Hok Hin Hf Hv Hc. unfold reserve_in, contains in *.
   destruct (slot_of (p_geom p) x) as [sl|] eqn:Es; [|discriminate].
   assert (Hwf : pool_wf p) by (destruct Hok as [_ HF]; eapply Forall_forall in HF; eauto).
   destruct Hwf as (Hg & Hnd & Hfl & Hfv & Hlv).
@@ -322,14 +331,14 @@ Proof.
   - destruct (o =? s) eqn:Eo; intros H; inversion H; subst r' ok; clear H.
     + apply N.eqb_eq in Eo; subst o. split.
       * apply upd_pool_ok with (p := p); auto.
-      * intros _ v. left. exists p, sl. repeat split; auto. apply upd_pool_in with (p := p); auto.
+      * intros _. left. exists p, sl. repeat split; auto. apply upd_pool_in with (p := p); auto.
     + split; [apply step_ok_refl|discriminate].
   - intros H; inversion H; subst r' ok; clear H. split.
     + apply upd_pool_ok with (p := p); auto.
       * intros W. apply take_wf; auto. unfold valid_slot. eapply Hg; exact Es.
       * intros sl' t _ Hl. rewrite take_lease. destruct (sl =? sl') eqn:E; auto.
         apply N.eqb_eq in E; subst sl'. rewrite El in Hl; discriminate.
-    + intros _ v. left. exists (pool_take p sl s), sl. repeat split; auto.
+    + intros _. left. exists (pool_take p sl s), sl. repeat split; auto.
       * apply upd_pool_in with (p := p); auto.
       * rewrite take_lease, N.eqb_refl. reflexivity.
 Qed.
@@ -365,12 +374,14 @@ Lemma reserve_cont_ok f x vrf s r r' ok :
   reg_ok r -> In (r', ok) (reserve_cont Repaired f x vrf s r) ->
   step_ok anyone r r' /\ (ok = true -> owns r' f vrf x s).
 Proof.
-  intros Hok. unfold reserve_cont. change (d5 Repaired) with false. cbv iota.
-  destruct (filter (fun p => contains p x) (fam_pools f r)) as [|c cs] eqn:Ef.
-  - assert (Hnone : forall p, In p (pools r) -> p_fam p = f -> slot_of (p_geom p) x = None).
-    { intros p Hin Hf. pose proof (filter_nil_none _ _ Ef p) as H.
+  intros Hok. unfold reserve_cont. change (d5 Repaired) with false. change (d9 Repaired) with false.
+  cbn [orb]. cbv iota.
+  destruct (filter (fun p => contains p x && (p_vrf p =? vrf)) (fam_pools f r)) as [|c cs] eqn:Ef.
+  - assert (Hnone : forall p, In p (pools r) -> p_fam p = f -> p_vrf p = vrf -> slot_of (p_geom p) x = None).
+    { intros p Hin Hf Hv. pose proof (filter_nil_none _ _ Ef p) as H.
       assert (In p (fam_pools f r)) by (unfold fam_pools; apply filter_In; split; auto; apply fam_eqb_spec; auto).
-      specialize (H H0). unfold contains in H. destruct (slot_of (p_geom p) x); [discriminate|reflexivity]. }
+      specialize (H H0). cbv beta in H. rewrite Hv, N.eqb_refl, andb_true_r in H. unfold contains in H.
+      destruct (slot_of (p_geom p) x); [discriminate|reflexivity]. }
     destruct (sassoc (f, vrf, x) (statics r)) as [o|] eqn:Es.
     + intros [H|[]]. inversion H; subst r' ok. split; [apply step_ok_refl|].
       intros Ho. apply N.eqb_eq in Ho; subst o. right. split; auto.
@@ -384,7 +395,8 @@ Proof.
         rewrite H. reflexivity.
   - rewrite <- Ef. intros Hc. apply in_map_iff in Hc. destruct Hc as (p & Heq & Hp).
     apply filter_In in Hp. destruct Hp as [Hp Hcon]. apply fam_pools_in in Hp. destruct Hp as [Hin Hf].
-    destruct (reserve_in_ok _ _ _ _ _ _ _ Hok Hin Hf Hcon Heq) as [A B]. split; auto.
+    apply andb_true_iff in Hcon. destruct Hcon as [Hcon Hv]. apply N.eqb_eq in Hv.
+    destruct (reserve_in_ok _ _ _ _ _ _ _ _ Hok Hin Hf Hv Hcon Heq) as [A B]. split; auto.
 Qed.
 
 (* ---- release (Repaired): sessions other than the releasing one lose nothing *)
@@ -490,10 +502,10 @@ Lemma map_pools_frame f r (G : pool -> pool) :
   (forall q, In q (pools r) -> (p_fam q <> f -> G q = q) /\ (p_fam q = f -> p_fam (G q) = f)) ->
   frame f r (mkReg (map G (pools r)) (statics r)).
 Proof.
-  intros HG t f' v x Hn [ (p & sl & Hin & Hf & Hs & Hl) | [Hnone Hst] ].
+  intros HG t f' v x Hn [ (p & sl & Hin & Hf & Hv & Hs & Hl) | [Hnone Hst] ].
   - left. exists p, sl. repeat split; auto. simpl.
     assert (G p = p) by (apply HG; auto; congruence). rewrite <- H. apply in_map; exact Hin.
-  - right. split; [|exact Hst]. simpl. intros p' Hin' Hf'.
+  - right. split; [|exact Hst]. simpl. intros p' Hin' Hf' Hv'.
     apply in_map_iff in Hin'. destruct Hin' as (q & <- & Hq). destruct (HG q Hq) as [A B].
     destruct (fam_eqb (p_fam q) f) eqn:E.
     + apply fam_eqb_spec in E. rewrite (B E) in Hf'. congruence.
@@ -577,19 +589,20 @@ Qed.
 
 (* ---- one owner per (family, VRF, address) when pools of a family do not overlap *)
 Definition pools_disjoint (r : reg) : Prop :=
-  forall p q x, In p (pools r) -> In q (pools r) -> p_fam p = p_fam q ->
+  forall p q x, In p (pools r) -> In q (pools r) -> p_fam p = p_fam q -> p_vrf p = p_vrf q ->
                 contains p x = true -> contains q x = true -> pool_id p = pool_id q.
 
 Lemma owns_functional r f v x s t :
   reg_ok r -> pools_disjoint r -> owns r f v x s -> owns r f v x t -> s = t.
 Proof.
-  intros [Hnd _] Hd [ (p & sl & Hp & Hf & Hs & Hl) | [Hn Hst] ] [ (q & sl' & Hq & Hf' & Hs' & Hl') | [Hn' Hst'] ].
+  intros [Hnd _] Hd [ (p & sl & Hp & Hf & Hv & Hs & Hl) | [Hn Hst] ]
+         [ (q & sl' & Hq & Hf' & Hv' & Hs' & Hl') | [Hn' Hst'] ].
   - assert (p = q).
     { eapply nodup_id_eq; eauto. apply Hd with (x := x); auto; try congruence;
       unfold contains; [rewrite Hs|rewrite Hs']; reflexivity. }
     subst q. rewrite Hs in Hs'. inversion Hs'; subst sl'. rewrite Hl in Hl'. inversion Hl'; reflexivity.
-  - rewrite (Hn' p Hp Hf) in Hs. discriminate.
-  - rewrite (Hn q Hq Hf') in Hs'. discriminate.
+  - rewrite (Hn' p Hp Hf Hv) in Hs. discriminate.
+  - rewrite (Hn q Hq Hf' Hv') in Hs'. discriminate.
   - rewrite Hst in Hst'. inversion Hst'; reflexivity.
 Qed.
 
@@ -649,12 +662,14 @@ Proof.
 Qed.
 Lemma pools_disjoint_shape r r' : same_shape r r' -> pools_disjoint r -> pools_disjoint r'.
 Proof.
-  intros Hs Hd p' q' x Hp' Hq' Hf Hc1 Hc2.
+  intros Hs Hd p' q' x Hp' Hq' Hf Hvv Hc1 Hc2.
   destruct (same_shape_in _ _ _ Hs Hp') as (p & Hp & E1). destruct (same_shape_in _ _ _ Hs Hq') as (q & Hq & E2).
   assert (A3 : p_geom p = p_geom p') by (unfold psig in E1; congruence).
   assert (B3 : p_geom q = p_geom q') by (unfold psig in E2; congruence).
   assert (A1 : p_fam p = p_fam p') by (unfold psig in E1; congruence).
   assert (B1 : p_fam q = p_fam q') by (unfold psig in E2; congruence).
+  assert (A4 : p_vrf p = p_vrf p') by (unfold psig in E1; congruence).
+  assert (B4 : p_vrf q = p_vrf q') by (unfold psig in E2; congruence).
   assert (pool_id p = pool_id q).
   { apply Hd with (x := x); auto; try congruence; unfold contains in *; [rewrite A3|rewrite B3]; assumption. }
   apply psig_id in E1. apply psig_id in E2. congruence.
@@ -690,7 +705,7 @@ Proof.
   - intros [H|[]]. inversion H.
 Qed.
 Lemma alloc_from_profile_kind f prof ov vrf s r r' x k :
-  kinds_ok r -> f <> FD -> In (r', Some (x, k)) (alloc_from_profile f prof ov vrf s r) -> snd x = 0.
+  kinds_ok r -> f <> FD -> In (r', Some (x, k)) (alloc_from_profile Repaired f prof ov vrf s r) -> snd x = 0.
 Proof.
   intros Hk Hf. unfold alloc_from_profile.
   destruct ov as [kk|]; [|apply alloc_walk_kind; auto].
@@ -1266,7 +1281,8 @@ End Invariant.
 
 (* ---------------------------------------------------------------- the property theorems *)
 Definition fresh_sess (s : sess) : Prop :=
-  s_a4 s = None /\ s_a6 s = None /\ s_ad s = None /\ s_told s = None /\ s_b6 s = None /\ s_bd s = None.
+  s_a4 s = None /\ s_a6 s = None /\ s_ad s = None /\ s_told s = None /\ s_b6 s = None /\ s_bd s = None /\
+  s_b4 s = None.
 
 Lemma fresh_new id ppp p4 p6 mac : fresh_sess (new_sess id ppp p4 p6 mac).
 Proof. repeat split. Qed.
@@ -1278,7 +1294,7 @@ Proof.
   intros Hnd Hwf HK Hns Hfr. unfold inv, init_state; cbn [st_reg st_sess].
   split; [split; [split; assumption|exact HK]|split; [exact Hns|split]].
   - apply Forall_forall. intros s Hs. eapply Forall_forall in Hfr; eauto.
-    destruct Hfr as (A & B & C & D & E & F). intros _.
+    destruct Hfr as (A & B & C & D & E & F & _). intros _.
     rewrite A, B, C, D, E, F. cbn. repeat split; try (intros _; repeat split); apply oo_none.
   - apply Forall_forall. intros s Hs. eapply Forall_forall in Hfr; eauto.
     destruct Hfr as (A & _ & _ & D & _). intros _. rewrite A, D. split; [discriminate|left; reflexivity].
@@ -1371,4 +1387,542 @@ Lemma range_resettable ps :
   (forall p, In p ps -> exists lo hi ex, p_geom p = GRange lo hi ex) -> resettable (mkReg ps []).
 Proof.
   intros H p Hin. destruct (H p Hin) as (lo & hi & ex & E). rewrite reset_is_new, E. apply new_pool_wf_range.
+Qed.
+
+(* ================================================================== IPoE: the recorded address is the told one *)
+(* For an IPoE session: whenever an IPv4 address is recorded (sess.IPv4, set by handleAck), it is the address of
+   the last OFFER/ACK and the address the allocation context carries.  Holds for sessions and for their images. *)
+Definition recI (s : sess) : Prop := s_b4 s = None \/ (s_b4 s = s_told s /\ s_a4 s = s_b4 s).
+Definition rec_ok (s : sess) : Prop := s_ppp s = false -> recI s.
+Definition img_ok (e : N * sess) : Prop := recI (snd e).
+Definition rec_inv (st : state) : Prop := Forall rec_ok (st_sess st) /\ Forall img_ok (store (st_prov st)).
+
+Lemma put_sess_forall (P : sess -> Prop) s' l : Forall P l -> P s' -> Forall P (put_sess s' l).
+Proof.
+  intros Hl Hs. unfold put_sess. apply Forall_forall. intros t Ht. apply in_map_iff in Ht.
+  destruct Ht as (t0 & <- & Ht0). destruct (s_id t0 =? s_id s'); auto. eapply Forall_forall in Hl; eauto.
+Qed.
+Lemma punassoc_forall {A} (P : N * A -> Prop) k l : Forall P l -> Forall P (punassoc k l).
+Proof.
+  induction 1 as [|[a b] r Hh Hr IH]; simpl; [constructor|]. destruct (a =? k); auto.
+Qed.
+Lemma rec_put st s' r' pr' :
+  rec_inv st -> rec_ok s' -> Forall img_ok (store pr') -> rec_inv (mkState r' (put_sess s' (st_sess st)) pr').
+Proof. intros [A B] Hs Hst. split; [apply put_sess_forall; auto|exact Hst]. Qed.
+Lemma store_ckpt_ok pr s : Forall img_ok (store pr) -> recI s -> Forall img_ok (store (ckpt pr s)).
+Proof. intros H Hs. unfold ckpt; cbn [store]. constructor; [exact Hs|apply punassoc_forall; exact H]. Qed.
+Lemma store_unckpt_ok pr k : Forall img_ok (store pr) -> Forall img_ok (store (unckpt pr k)).
+Proof. intros H. apply punassoc_forall; exact H. Qed.
+Lemma prov_reserve_store v pr r ip mac sid pool pr' r' ok :
+  prov_reserve v pr r ip mac sid pool = (pr', r', ok) -> store pr' = store pr.
+Proof.
+  unfold prov_reserve, prov_new. destruct (assoc ip (by_ip pr)); [|intros H; inversion H; reflexivity].
+  destruct (lassoc n (objs pr)) as [l|]; [|intros H; inversion H; reflexivity].
+  destruct (l_mac l =? mac); [intros H; inversion H; reflexivity|].
+  destruct (l_exp l); intros H; inversion H; reflexivity.
+Qed.
+Lemma prov_release_store v pr r mac s pr' r' : prov_release v pr r mac s = (pr', r') -> store pr' = store pr.
+Proof.
+  unfold prov_release. destruct (assoc mac (by_mac pr)); [|intros H; inversion H; reflexivity].
+  destruct (lassoc n (objs pr)); intros H; inversion H; reflexivity.
+Qed.
+Lemma acquire_cur v f prof ov vrf sid i r r1 a pk ok :
+  In (r1, a, pk, ok) (acquire v f prof ov vrf sid (Some i) r) -> a = Some i.
+Proof.
+  unfold acquire. intros H. apply in_map_iff in H. destruct H as ([r' ok'] & E & _). inversion E; reflexivity.
+Qed.
+
+Lemma step_id_core_rec st s0 isreq bind rq st' o :
+  rec_inv st -> rec_ok s0 -> s_ppp s0 = false ->
+  In (st', o) (step_id_core Repaired st s0 isreq bind rq) -> rec_inv st'.
+Proof.
+  intros Hinv H0 Hp. pose proof Hinv as [_ Hst]. unfold step_id_core.
+  destruct (s_prof4 s0); [|rewrite id_nil_repaired; intros [E|[]]; inversion E; subst; apply rec_put; auto].
+  unfold bindl. intros H. apply in_flat_map in H. destruct H as ([[[r1 a4] pk] ok] & Hc & H).
+  rewrite id_nil_repaired in H. cbv zeta in H.
+  assert (Ha : forall x, s_b4 s0 = Some x -> oaddr a4 = Some x).
+  { intros x Hx. destruct (H0 Hp) as [E|[_ E]]; [congruence|]. rewrite Hx in E.
+    rewrite E in Hc. change (oitem (Some x)) with (Some (addr_item x)) in Hc.
+    apply acquire_cur in Hc. subst a4. reflexivity. }
+  assert (Hkeep : forall a, a = oaddr a4 -> recI
+            (mkSess (s_id s0) false (s_prof4 s0) (s_prof6 s0) (s_mac s0) true true (s_vrf s0) (s_ov4 s0)
+                    (s_ov6 s0) (s_ovd s0) a (s_a6 s0) (s_ad s0) None None (s_told s0) (s_ipcp s0)
+                    (s_b4 s0) (s_b6 s0) (s_bd s0))).
+  { intros a ->. unfold recI; cbn. destruct (s_b4 s0) as [y|] eqn:Eb; [|left; reflexivity]. right.
+    destruct (H0 Hp) as [E|[E1 E2]]; [congruence|]. split; [congruence|]. rewrite (Ha y eq_refl). reflexivity. }
+  revert H. destruct (if ok then oaddr a4 else None) as [x|] eqn:Ex.
+  - destruct (prov_reserve Repaired (st_prov st) r1 x (s_mac s0) (s_id s0) pk) as [[pr' r2] okp] eqn:Epr.
+    pose proof (prov_reserve_store _ _ _ _ _ _ _ _ _ _ Epr) as Es.
+    assert (Hx : oaddr a4 = Some x) by (destruct ok; [exact Ex|discriminate]).
+    destruct okp; intros [E|[]]; inversion E; subst; clear E.
+    + set (s2 := mkSess _ _ _ _ _ _ _ _ _ _ _ _ _ _ _ _ _ _ _ _ _).
+      assert (R2 : recI s2).
+      { subst s2. unfold recI; cbn. destruct bind; [right; split; [reflexivity|exact Hx]|].
+        destruct (s_b4 s0) as [y|] eqn:Eb; [|left; reflexivity]. right.
+        pose proof (Ha y eq_refl) as Hy. rewrite Hx in Hy. inversion Hy; subst. split; [reflexivity|exact Hx]. }
+      apply rec_put; [exact Hinv|intros _; exact R2|].
+      destruct bind; [apply store_ckpt_ok; [rewrite Es|]; auto|rewrite Es; auto].
+    + apply rec_put; [exact Hinv|intros _; apply Hkeep; reflexivity|rewrite Es; exact Hst].
+  - intros [E|[]]; inversion E; subst; clear E.
+    apply rec_put; [exact Hinv|intros _; apply Hkeep; reflexivity|exact Hst].
+Qed.
+
+Lemma is_mk_rec s0 a b c d : recI s0 -> recI (is_mk s0 a b c d).
+Proof. intros H. exact H. Qed.
+
+Lemma step_is_core_rec st s0 isreq st' o :
+  rec_inv st -> recI s0 -> s_ppp s0 = false ->
+  In (st', o) (step_is_core Repaired st s0 isreq) -> rec_inv st'.
+Proof.
+  intros Hinv H0 Hp. pose proof Hinv as [_ Hst]. unfold step_is_core.
+  assert (Hfin : forall a b c d r' pr', Forall img_ok (store pr') ->
+            rec_inv (mkState r' (put_sess (is_mk s0 a b c d) (st_sess st)) pr')).
+  { intros. apply rec_put; auto. intros _. apply is_mk_rec; exact H0. }
+  assert (Hfin0 : forall r', rec_inv (mkState r' (put_sess s0 (st_sess st)) (st_prov st))).
+  { intros. apply rec_put; auto. intros _; exact H0. }
+  destruct (s_prof6 s0); [|intros [E|[]]; inversion E; subst; apply Hfin0].
+  unfold bindl. intros H. apply in_flat_map in H. destruct H as ([[[r1 a6] k6] ok6] & Hc & H).
+  destruct ok6; cbn [negb] in H; [|destruct H as [E|[]]; inversion E; subst; apply Hfin0].
+  apply in_flat_map in H. destruct H as ([[[r2 ad] kd] okd] & Hcd & H).
+  destruct okd; cbn [negb] in H; [|destruct H as [E|[]]; inversion E; subst; apply Hfin; exact Hst].
+  destruct a6 as [i6|]; [|destruct ad as [i7|]]; cbv beta iota zeta in H;
+    try (destruct (prov6_resolved _ _ _ _ _ _ _ _) as [q' [|]]);
+    try (destruct isreq);
+    destruct H as [E|[]]; inversion E; subst; apply Hfin; auto;
+    try (apply store_ckpt_ok; [exact Hst|apply is_mk_rec; exact H0]).
+Qed.
+
+Lemma reserve_first_val v f x vrf sid r r' y : reserve_first v f x vrf sid r = (r', y) -> y = None \/ y = x.
+Proof.
+  unfold reserve_first. destruct x as [i|]; [|intros H; inversion H; auto].
+  destruct (reserve_cont v f i vrf sid r) as [|[r1 ok] cs]; intros H; inversion H; subst.
+  - destruct (d8 v); auto.
+  - destruct (ok || d8 v); auto.
+Qed.
+
+Lemma passoc_in {A} k (l : list (N * A)) a : passoc k l = Some a -> In (k, a) l.
+Proof.
+  induction l as [|[x y] r IH]; simpl; [discriminate|]. destruct (x =? k) eqn:E.
+  - apply N.eqb_eq in E; subst. intros H; inversion H; auto.
+  - intros H; right; auto.
+Qed.
+
+Lemma restore_one_rec v st0 r done s r2 done2 :
+  Forall img_ok st0 -> Forall rec_ok done -> rec_ok s ->
+  restore_one v st0 (r, done) s = (r2, done2) -> Forall rec_ok done2.
+Proof.
+  intros Hst Hd Hs. unfold restore_one.
+  destruct (if s_ppp s then None else passoc (s_id s) st0) as [im|] eqn:Eim.
+  2:{ intros H; inversion H; subst. apply Forall_app. split; [exact Hd|constructor; [|constructor]].
+      destruct (s_started s); [exact Hs|]. intros _. left; reflexivity. }
+  destruct (reserve_first v F4 (oitem (s_b4 im)) (s_vrf im) (s_id s) r) as [r1 b4] eqn:E1.
+  destruct (reserve_first v F6 (oitem (s_b6 im)) (s_vrf im) (s_id s) r1) as [r3 b6] eqn:E2.
+  destruct (reserve_first v FD (s_bd im) (s_vrf im) (s_id s) r3) as [r4 bd] eqn:E3.
+  intros H; inversion H; subst; clear H.
+  apply Forall_app. split; [exact Hd|constructor; [|constructor]].
+  intros _. unfold recI; cbn.
+  destruct (reserve_first_val _ _ _ _ _ _ _ _ E1) as [-> | ->]; [left; reflexivity|].
+  destruct (s_b4 im) as [z|] eqn:Eb; [|left; reflexivity]. right. cbn. split; [reflexivity|].
+  assert (Hi : img_ok (s_id s, im)).
+  { destruct (s_ppp s); [discriminate|]. eapply Forall_forall in Hst; [exact Hst|]. apply passoc_in; exact Eim. }
+  destruct Hi as [E|[_ E]]; cbn in *; congruence.
+Qed.
+
+Lemma restore_fold_rec v st0 l : forall r done r2 done2,
+  Forall img_ok st0 -> Forall rec_ok done -> Forall rec_ok l ->
+  fold_left (restore_one v st0) l (r, done) = (r2, done2) -> Forall rec_ok done2.
+Proof.
+  induction l as [|s l IH]; cbn [fold_left]; intros r done r2 done2 Hst Hd Hl H.
+  - inversion H; subst; exact Hd.
+  - inversion Hl as [|? ? Hs Hl2]; subst.
+    destruct (restore_one v st0 (r, done) s) as [r1 d1] eqn:E.
+    eapply IH; [exact Hst| |exact Hl2|exact H].
+    eapply restore_one_rec; [exact Hst|exact Hd|exact Hs|exact E].
+Qed.
+
+Lemma rec_ppp s' : s_ppp s' = true -> rec_ok s'.
+Proof. intros H H'. congruence. Qed.
+
+Lemma step_rec st o st' ot : rec_inv st -> In (st', ot) (step Repaired st o) -> rec_inv st'.
+Proof.
+  intros Hinv. pose proof Hinv as [Hss Hst]. unfold step, skip.
+  assert (Hfind : forall sid s, find_sess sid st = Some s -> rec_ok s).
+  { intros sid s Hf. unfold find_sess in Hf. apply find_in in Hf. destruct Hf as [Hf _].
+    eapply Forall_forall in Hss; eauto. }
+  destruct o as [sid vrf s4 s6 spd o4 o6 od|sid a|sid|isreq bind rq sid vrf s4 o4|isreq sid vrf s6 spd o6 od|sid|sid| |sid|sid].
+  8:{ unfold step_restart.
+      destruct (fold_left (restore_one Repaired (store (st_prov st))) (st_sess st)
+                  (mkReg (map reset_pool (pools (st_reg st))) [], [])) as [r2 ss] eqn:E.
+      intros [H|[]]; inversion H; subst. split; cbn [st_sess st_prov store].
+      - eapply restore_fold_rec; [exact Hst|constructor|exact Hss|exact E].
+      - exact Hst. }
+  all: destruct (find_sess sid st) as [s|] eqn:Ef; try (intros [E|[]]; inversion E; subst; exact Hinv);
+       pose proof (Hfind _ _ Ef) as Hs.
+  - destruct (s_ppp s && s_live s && negb (s_started s)); [|intros [E|[]]; inversion E; subst; exact Hinv].
+    unfold step_pa, bindl. intros H.
+    apply in_flat_map in H. destruct H as ([[[r1 a4] p4] ok4] & _ & H).
+    apply in_flat_map in H. destruct H as ([[[r2 a6] p6] ok6] & _ & H).
+    apply in_map_iff in H. destruct H as ([r3 ad] & E & _). inversion E; subst.
+    apply rec_put; auto. apply rec_ppp; reflexivity.
+  - destruct (s_ppp s && s_live s && s_started s && negb (s_ipcp s)); [|intros [E|[]]; inversion E; subst; exact Hinv].
+    unfold step_pi, pi_res. destruct (s_told s) as [t|]; [destruct a as [x|]|];
+      try destruct (negb (t =? 0) && negb (x =? t)); try destruct (x =? 0);
+      intros [E|[]]; inversion E; subst; apply rec_put; auto; apply rec_ppp; reflexivity.
+  - destruct (s_ppp s); [|intros [E|[]]; inversion E; subst; exact Hinv].
+    unfold step_pt, bindl. intros H.
+    apply in_flat_map in H. destruct H as (r1 & _ & H). apply in_flat_map in H. destruct H as (r2 & _ & H).
+    apply in_map_iff in H. destruct H as (r3 & E & _). inversion E; subst. apply rec_put; auto.
+  - destruct (s_ppp s) eqn:Ep; cbn [negb andb]; [intros [E|[]]; inversion E; subst; exact Hinv|].
+    destruct (s_live s); [|intros [E|[]]; inversion E; subst; exact Hinv].
+    unfold step_id. apply step_id_core_rec; auto.
+    + unfold id_ctx. destruct (s_started s); [exact Hs|]. intros _. left; reflexivity.
+    + unfold id_ctx. destruct (s_started s); [exact Ep|reflexivity].
+  - destruct (s_ppp s) eqn:Ep; cbn [negb andb]; [intros [E|[]]; inversion E; subst; exact Hinv|].
+    destruct (s_live s); [|intros [E|[]]; inversion E; subst; exact Hinv].
+    unfold step_is. apply step_is_core_rec; auto.
+    + unfold mark_duid, is_ctx. destruct isreq; destruct (s_started s); try (exact (Hs Ep)); left; reflexivity.
+    + unfold mark_duid, is_ctx. destruct isreq; destruct (s_started s); auto.
+  - destruct (s_ppp s) eqn:Ep; cbn [negb andb]; [intros [E|[]]; inversion E; subst; exact Hinv|].
+    destruct (s_live s); [|intros [E|[]]; inversion E; subst; exact Hinv].
+    destruct (v6bound s).
+    + unfold step_rel4p. intros H. apply in_map_iff in H. destruct H as (r1 & E & _).
+      destruct (prov_release Repaired (st_prov st) r1 (s_mac s) (s_id s)) as [pr2 r2] eqn:Epr.
+      inversion E; subst. pose proof (prov_release_store _ _ _ _ _ _ _ Epr) as Es.
+      apply rec_put; [exact Hinv|intros _; left; reflexivity|].
+      apply store_ckpt_ok; [rewrite Es; exact Hst|left; reflexivity].
+    + unfold step_rel, bindl. intros H. apply in_flat_map in H. destruct H as (r1 & _ & H).
+      destruct (prov_release Repaired (st_prov st) r1 (s_mac s) (s_id s)) as [pr2 r2] eqn:Epr.
+      apply in_flat_map in H. destruct H as (r3 & _ & H). apply in_map_iff in H. destruct H as (r4 & E & _).
+      destruct (if true && s_ipcp s then prov6_release Repaired (p6 pr2) r4 (s_mac s) (s_id s) else (p6 pr2, r4)) as [q2 r5].
+      inversion E; subst. pose proof (prov_release_store _ _ _ _ _ _ _ Epr) as Es.
+      apply rec_put; auto. apply store_unckpt_ok. cbn [store with_p6]. rewrite Es; exact Hst.
+  - destruct (s_ppp s) eqn:Ep; cbn [negb andb]; [intros [E|[]]; inversion E; subst; exact Hinv|].
+    destruct (s_live s); [|intros [E|[]]; inversion E; subst; exact Hinv].
+    unfold step_rel6.
+    destruct (prov6_release Repaired (p6 (st_prov st)) (st_reg st) (s_mac s) (s_id s)) as [q1 r1].
+    unfold bindl. intros H. apply in_flat_map in H. destruct H as (r2 & _ & H).
+    apply in_map_iff in H. destruct H as (r3 & E & _).
+    destruct (s_b4 s) eqn:Eb.
+    + inversion E; subst.
+      assert (R : recI (drop6 s)).
+      { unfold recI; cbn. rewrite Eb. destruct (Hs Ep) as [X|X]; [congruence|right; rewrite <- Eb; exact X]. }
+      apply rec_put; [exact Hinv|intros _; exact R|]. apply store_ckpt_ok; [exact Hst|exact R].
+    + destruct (prov_release Repaired (with_p6 (st_prov st) q1) r3 (s_mac s) (s_id s)) as [pr2 r4] eqn:Epr.
+      inversion E; subst. pose proof (prov_release_store _ _ _ _ _ _ _ Epr) as Es.
+      apply rec_put; auto. apply store_unckpt_ok. rewrite Es. exact Hst.
+  - destruct (negb (s_ppp s) && s_live s); [|intros [E|[]]; inversion E; subst; exact Hinv].
+    unfold step_rel, bindl. intros H. apply in_flat_map in H. destruct H as (r1 & _ & H).
+    cbv iota beta in H.
+    apply in_flat_map in H. destruct H as (r3 & _ & H). apply in_map_iff in H. destruct H as (r4 & E & _).
+    inversion E; subst. apply rec_put; auto. apply store_unckpt_ok. exact Hst.
+  - destruct (negb (s_ppp s)); intros [E|[]]; inversion E; subst; try exact Hinv.
+    split; [exact Hss|]. unfold prov_age. cbn [st_prov].
+    destruct (assoc (s_mac s) (by_mac (st_prov st))); [|exact Hst].
+    destruct (lassoc n (objs (st_prov st))); exact Hst.
+Qed.
+
+Lemma reach_rec st0 st : rec_inv st0 -> reach Repaired st0 st -> rec_inv st.
+Proof. intros H0 Hr. induction Hr; [exact H0|]. eapply step_rec; eauto. Qed.
+
+Lemma ipoe_recorded_is_told ps ss st :
+  Forall fresh_sess ss -> reach Repaired (init_state ps ss) st ->
+  forall s, In s (st_sess st) -> s_ppp s = false ->
+    s_b4 s = None \/ (s_b4 s = s_told s /\ s_a4 s = s_b4 s).
+Proof.
+  intros Hfr Hreach s Hin Hp.
+  assert (H0 : rec_inv (init_state ps ss)).
+  { split; [|constructor]. cbn. eapply Forall_impl; [|exact Hfr].
+    intros t (_ & _ & _ & _ & _ & _ & G) _. left; exact G. }
+  destruct (reach_rec _ _ H0 Hreach) as [Hss _]. eapply Forall_forall in Hss; [|exact Hin]. exact (Hss Hp).
+Qed.
+
+(* ================================================================== the code at /repo HEAD *)
+(* A history is benign when, at every step, the variant HEAD implements has exactly the successors of the
+   Repaired model (same states, same outputs): none of the recorded triggers fires at that step.  The trigger
+   lemmas below say what the recorded known findings are at the level of the primitives: outside them the two
+   variants coincide. *)
+Inductive reach_benign (st0 : state) : state -> Prop :=
+| rb_init : reach_benign st0 st0
+| rb_step st o st' ot : reach_benign st0 st -> step Head st o = step Repaired st o ->
+                        In (st', ot) (step Head st o) -> reach_benign st0 st'.
+
+Lemma reach_benign_repaired st0 st : reach_benign st0 st -> reach Repaired st0 st.
+Proof.
+  induction 1 as [|st o st' ot Hr IH He Hin]; [constructor|].
+  eapply reach_step; [exact IH|]. rewrite <- He. exact Hin.
+Qed.
+
+(* known finding "release-frees-foreign-lease": the only difference is a release of a slot leased to somebody else *)
+Lemma trigger_release p sl s :
+  (forall o, lease_of p sl = Some o -> o = s) -> pool_release Head p sl s = pool_release Repaired p sl s.
+Proof.
+  intros H. unfold pool_release. destruct (lease_of p sl) as [o|] eqn:E; [|reflexivity].
+  rewrite (H o eq_refl). unfold owner_ok, Head, Repaired; cbn. rewrite N.eqb_refl. reflexivity.
+Qed.
+
+(* known findings "static-outside-pools-untracked" and "reserve-ignores-vrf": the only differences are an address
+   that lies in no pool, or in a pool of another VRF *)
+Lemma trigger_reserve f x vrf s r :
+  (exists p, In p (fam_pools f r) /\ contains p x = true) ->
+  (forall p, In p (fam_pools f r) -> contains p x = true -> p_vrf p = vrf) ->
+  reserve_cont Head f x vrf s r = reserve_cont Repaired f x vrf s r.
+Proof.
+  intros (p0 & Hin0 & Hc0) Hv. unfold reserve_cont.
+  change (d9 Head) with true. change (d9 Repaired) with false. cbn [orb].
+  assert (E : filter (fun p => contains p x && true) (fam_pools f r) =
+              filter (fun p => contains p x && (p_vrf p =? vrf)) (fam_pools f r)).
+  { apply filter_ext_in. intros p Hp. destruct (contains p x) eqn:Ec; [|reflexivity].
+    rewrite (Hv p Hp Ec), N.eqb_refl. reflexivity. }
+  rewrite <- E. destruct (filter (fun p => contains p x && true) (fam_pools f r)) as [|c cs] eqn:Ef; [|reflexivity].
+  exfalso. pose proof (filter_nil_none _ _ Ef p0 Hin0) as H. cbv beta in H.
+  rewrite Hc0 in H. discriminate.
+Qed.
+
+(* known finding "dhcp4-unresolved-answered-from-lease-table": needs a lease-table entry of the MAC *)
+Lemma trigger_unresolved r pr s isreq rq :
+  assoc (s_mac s) (by_mac pr) = None -> unresolved Head r pr s isreq rq = None.
+Proof. intros H. unfold unresolved. rewrite H. destruct (d4 Head); reflexivity. Qed.
+
+(* the AAA pool override matters only when it names a pool of another VRF *)
+Lemma trigger_override f prof ov vrf s r :
+  (forall k p, ov = Some k -> In p (fam_pools f r) -> p_key p = k -> p_vrf p = vrf) ->
+  alloc_from_profile Head f prof ov vrf s r = alloc_from_profile Repaired f prof ov vrf s r.
+Proof.
+  intros H. unfold alloc_from_profile. destruct ov as [k|]; [|reflexivity].
+  change (d9 Head) with true. change (d9 Repaired) with false. cbn [orb].
+  assert (E : forall l, (forall p, In p l -> In p (fam_pools f r)) ->
+              find (fun p => (p_prof p =? prof) && (p_key p =? k) && true) l =
+              find (fun p => (p_prof p =? prof) && (p_key p =? k) && (p_vrf p =? vrf)) l).
+  { induction l as [|p l IH]; intros Hl; [reflexivity|]. cbn [find].
+    destruct ((p_prof p =? prof) && (p_key p =? k)) eqn:Ec; cbn [andb].
+    - apply andb_true_iff in Ec. destruct Ec as [_ Ek]. apply N.eqb_eq in Ek.
+      rewrite (H k p eq_refl (Hl p (or_introl eq_refl)) Ek), N.eqb_refl. reflexivity.
+    - apply IH. intros q Hq. apply Hl. right; exact Hq. }
+  rewrite (E _ (fun p Hp => Hp)). reflexivity.
+Qed.
+
+(* restore: "keeps a conflicting address" matters only when a re-reservation is refused *)
+Lemma trigger_restore f x vrf sid r :
+  reserve_cont Head f x vrf sid r = reserve_cont Repaired f x vrf sid r ->
+  (forall r' ok cs, reserve_cont Repaired f x vrf sid r = (r', ok) :: cs -> ok = true) ->
+  reserve_first Head f (Some x) vrf sid r = reserve_first Repaired f (Some x) vrf sid r.
+Proof.
+  intros E Hok. unfold reserve_first. rewrite E.
+  destruct (reserve_cont Repaired f x vrf sid r) as [|[r' ok] cs] eqn:Ec.
+  - (* no candidate: cannot happen (reserve_cont always answers), both keep nothing in Repaired only *)
+    exfalso. unfold reserve_cont in Ec.
+    destruct (filter _ (fam_pools f r)) as [|c cs']; [|discriminate].
+    change (d5 Repaired) with false in Ec. cbv iota in Ec.
+    destruct (sassoc (f, vrf, x) (statics r)); discriminate.
+  - rewrite (Hok _ _ _ eq_refl). reflexivity.
+Qed.
+
+Lemma head_told_is_recorded ps ss st :
+  NoDup (map pool_id ps) -> Forall pool_wf ps -> kinds_ok (mkReg ps []) -> resettable (mkReg ps []) ->
+  NoDup (map s_id ss) -> Forall fresh_sess ss ->
+  reach_benign (init_state ps ss) st ->
+  forall s, In s (st_sess st) ->
+    (forall f x, holds s f = Some x -> owns (st_reg st) f (s_vrf s) x (s_id s)) /\
+    (s_ppp s = true ->
+       (s_a4 s = None \/ s_a4 s = s_told s) /\
+       (s_live s = true -> forall t, s_told s = Some t -> owns (st_reg st) F4 (s_vrf s) (t, 0) (s_id s))) /\
+    (s_ppp s = false -> s_b4 s = None \/ (s_b4 s = s_told s /\ s_a4 s = s_b4 s)).
+Proof.
+  intros Hnd Hwf Hk Hrs Hns Hfr Hb s Hin. apply reach_benign_repaired in Hb.
+  destruct (told_is_recorded_all _ _ _ Hnd Hwf Hk Hrs Hns Hfr Hb s Hin) as [A B].
+  split; [exact A|split; [exact B|]]. intros Hp. eapply ipoe_recorded_is_told; eauto.
+Qed.
+
+Lemma head_unique ps ss st :
+  NoDup (map pool_id ps) -> Forall pool_wf ps -> kinds_ok (mkReg ps []) -> resettable (mkReg ps []) ->
+  pools_disjoint (mkReg ps []) ->
+  NoDup (map s_id ss) -> Forall fresh_sess ss ->
+  reach_benign (init_state ps ss) st ->
+  forall s1 s2 f x, In s1 (st_sess st) -> In s2 (st_sess st) -> s_vrf s1 = s_vrf s2 ->
+    holds s1 f = Some x -> holds s2 f = Some x -> s1 = s2.
+Proof.
+  intros Hnd Hwf Hk Hrs Hd Hns Hfr Hb. apply reach_benign_repaired in Hb. eapply unique_all; eauto.
+Qed.
+
+(* ================================================================== delegated prefixes: no overlap *)
+(* two prefixes overlap when, cut to the shorter length, they are the same block *)
+Definition overlap (x y : item) : Prop :=
+  let l := N.min (snd x) (snd y) in fst x / 2 ^ (128 - l) = fst y / 2 ^ (128 - l).
+
+(* a well-formed PD pool geometry: aligned base, the pool network fits below 2^128, at most 2^64 prefixes *)
+Definition pd_geom_wf (g : geom) : Prop :=
+  match g with
+  | GPfx base plen count shift =>
+      shift = 128 - plen /\ plen <= 128 /\ base mod 2 ^ shift = 0 /\
+      base + count * 2 ^ shift <= two128 /\ count <= two64
+  | GRange _ _ _ => False
+  end.
+
+Lemma pd_slot_char base plen count shift a i :
+  pd_geom_wf (GPfx base plen count shift) -> a < two128 ->
+  slot_of (GPfx base plen count shift) (a, plen) = Some i ->
+  base <= a /\ a / 2 ^ shift = base / 2 ^ shift + i /\ i < count.
+Proof.
+  intros (Hs & Hp & Hal & Hfit & Hc) Ha. unfold slot_of. cbn [fst snd]. rewrite N.eqb_refl.
+  set (c := 2 ^ shift) in *. assert (Hc0 : c <> 0) by (apply N.pow_nonzero; discriminate).
+  destruct ((a + two128 - base) mod two128 <? count * c) eqn:E1; [|discriminate].
+  apply N.ltb_lt in E1.
+  assert (Hba : base <= a).
+  { destruct (N.le_gt_cases base a) as [H|H]; [exact H|]. exfalso.
+    rewrite N.mod_small in E1 by lia. lia. }
+  assert (Hd : (a + two128 - base) mod two128 = a - base).
+  { replace (a + two128 - base) with ((a - base) + 1 * two128) by lia.
+    rewrite N.mod_add by (unfold two128; discriminate). apply N.mod_small. lia. }
+  rewrite Hd in *.
+  destruct (((a - base) / c) mod two64 <? count) eqn:E2; [|discriminate].
+  intros H; inversion H; subst i; clear H.
+  assert (Hq : (a - base) / c < count).
+  { apply N.div_lt_upper_bound; [exact Hc0|]. lia. }
+  rewrite N.mod_small by lia.
+  split; [exact Hba|split; [|exact Hq]].
+  apply N.div_exact in Hal; [|exact Hc0].
+  replace a with ((a - base) + (base / c) * c) at 1 by lia.
+  rewrite N.div_add by exact Hc0. lia.
+Qed.
+
+Lemma pd_same_pool_no_overlap base plen count shift a1 a2 i j :
+  pd_geom_wf (GPfx base plen count shift) -> a1 < two128 -> a2 < two128 ->
+  slot_of (GPfx base plen count shift) (a1, plen) = Some i ->
+  slot_of (GPfx base plen count shift) (a2, plen) = Some j ->
+  overlap (a1, plen) (a2, plen) -> i = j.
+Proof.
+  intros Hg H1 H2 S1 S2 Ho. pose proof Hg as (Hs & _).
+  destruct (pd_slot_char _ _ _ _ _ _ Hg H1 S1) as (_ & E1 & _).
+  destruct (pd_slot_char _ _ _ _ _ _ Hg H2 S2) as (_ & E2 & _).
+  unfold overlap in Ho. cbn [fst snd] in Ho. rewrite N.min_id, <- Hs in Ho. lia.
+Qed.
+
+Lemma pd_slot_len base plen count shift x i : slot_of (GPfx base plen count shift) x = Some i -> snd x = plen.
+Proof. unfold slot_of. destruct (snd x =? plen) eqn:E; [intros _; apply N.eqb_eq; exact E|discriminate]. Qed.
+
+(* configuration hypotheses for the PD statement *)
+Definition pd_cfg (ps : list pool) : Prop := forall p, In p ps -> p_fam p = FD -> pd_geom_wf (p_geom p).
+Definition pd_apart (ps : list pool) : Prop :=
+  forall p q x y, In p ps -> In q ps -> p_fam p = FD -> p_fam q = FD -> p_vrf p = p_vrf q ->
+                  pool_id p <> pool_id q -> contains p x = true -> contains q y = true -> ~ overlap x y.
+
+Definition Ks (r0 : reg) (r : reg) : Prop := Kd r /\ same_shape r0 r.
+Lemma Ks_shape r0 r r' : same_shape r r' -> Ks r0 r -> Ks r0 r'.
+Proof.
+  intros Hs [A B]. split; [eapply Kd_shape; eauto|]. unfold same_shape in *. congruence.
+Qed.
+
+Lemma pd_no_overlap_all ps ss st :
+  NoDup (map pool_id ps) -> Forall pool_wf ps -> kinds_ok (mkReg ps []) -> resettable (mkReg ps []) ->
+  pools_disjoint (mkReg ps []) -> pd_cfg ps -> pd_apart ps ->
+  NoDup (map s_id ss) -> Forall fresh_sess ss ->
+  reach Repaired (init_state ps ss) st ->
+  forall s1 s2 x y, In s1 (st_sess st) -> In s2 (st_sess st) -> s_vrf s1 = s_vrf s2 ->
+    holds s1 FD = Some x -> holds s2 FD = Some y ->
+    (exists p, In p ps /\ p_fam p = FD /\ p_vrf p = s_vrf s1 /\ contains p x = true) ->
+    (exists q, In q ps /\ p_fam q = FD /\ p_vrf q = s_vrf s2 /\ contains q y = true) ->
+    fst x < two128 -> fst y < two128 ->
+    overlap x y -> s1 = s2.
+Proof.
+  intros Hnd Hwf Hk Hrs Hd Hcfg Hap Hns Hfr Hreach s1 s2 x y H1 H2 Hv Hh1 Hh2 (p0 & Hp0 & Hf0 & Hv0 & Hc0)
+         (q0 & Hq0 & Hg0 & Hw0 & Hd0) Hx Hy Ho.
+  set (r0 := mkReg ps []).
+  assert (Hinv : inv (Ks r0) st).
+  { eapply (reach_inv (Ks r0) (Ks_shape r0) (fun r H => proj1 (proj1 (proj1 H))) (fun r H => proj2 (proj1 (proj1 H))));
+      [|exact Hreach]. apply init_inv; auto. split; [split; [split|]; auto|reflexivity]. }
+  pose proof Hinv as (((Hnd' & _) & (_ & Hshape)) & Hids & _).
+  pose proof (holds_owned (Ks r0) _ _ _ _ Hinv H1 Hh1) as O1.
+  pose proof (holds_owned (Ks r0) _ _ _ _ Hinv H2 Hh2) as O2.
+  (* back and forth between the configured pools and the pools of the reached state *)
+  assert (Hback : forall p', In p' (pools (st_reg st)) -> exists p, In p ps /\ psig p = psig p').
+  { intros p' Hp'. exact (same_shape_in r0 _ _ Hshape Hp'). }
+  assert (Hfwd : forall p, In p ps -> exists p', In p' (pools (st_reg st)) /\ psig p' = psig p).
+  { intros p Hp. assert (Hs' : same_shape (st_reg st) r0) by (apply same_shape_sym; exact Hshape).
+    exact (same_shape_in _ _ _ Hs' Hp). }
+  assert (L1 : exists p sl, In p (pools (st_reg st)) /\ p_fam p = FD /\ p_vrf p = s_vrf s1 /\
+                            slot_of (p_geom p) x = Some sl /\ lease_of p sl = Some (s_id s1)).
+  { destruct O1 as [L|[Hn _]]; [exact L|]. exfalso. destruct (Hfwd _ Hp0) as (p' & Hp' & E).
+    assert (slot_of (p_geom p') x = None) by (apply Hn; auto; unfold psig in E; congruence).
+    unfold contains in Hc0. replace (p_geom p0) with (p_geom p') in Hc0 by (unfold psig in E; congruence).
+    rewrite H in Hc0. discriminate. }
+  assert (L2 : exists p sl, In p (pools (st_reg st)) /\ p_fam p = FD /\ p_vrf p = s_vrf s2 /\
+                            slot_of (p_geom p) y = Some sl /\ lease_of p sl = Some (s_id s2)).
+  { destruct O2 as [L|[Hn _]]; [exact L|]. exfalso. destruct (Hfwd _ Hq0) as (p' & Hp' & E).
+    assert (slot_of (p_geom p') y = None) by (apply Hn; auto; unfold psig in E; congruence).
+    unfold contains in Hd0. replace (p_geom q0) with (p_geom p') in Hd0 by (unfold psig in E; congruence).
+    rewrite H in Hd0. discriminate. }
+  destruct L1 as (p1 & i & P1 & F1 & V1 & S1 & LL1). destruct L2 as (p2 & j & P2 & F2 & V2 & S2 & LL2).
+  destruct (Hback _ P1) as (c1 & C1 & E1). destruct (Hback _ P2) as (c2 & C2 & E2).
+  assert (Hid : s_id s1 = s_id s2).
+  { destruct (N.eq_dec (p_key p1) (p_key p2)) as [Ek|Nk].
+    - assert (p1 = p2) by (eapply nodup_id_eq; eauto; unfold pool_id; congruence). subst p2.
+      assert (Hgw : pd_geom_wf (p_geom p1)).
+      { replace (p_geom p1) with (p_geom c1) by (unfold psig in E1; congruence).
+        apply Hcfg; auto. unfold psig in E1; congruence. }
+      destruct (p_geom p1) as [|base plen count shift] eqn:Eg; [destruct Hgw|].
+      pose proof (pd_slot_len _ _ _ _ _ _ S1) as Lx. pose proof (pd_slot_len _ _ _ _ _ _ S2) as Ly.
+      destruct x as [a1 l1], y as [a2 l2]; cbn [fst snd] in *; subst l1 l2.
+      assert (i = j) by exact (pd_same_pool_no_overlap base plen count shift a1 a2 i j Hgw Hx Hy S1 S2 Ho).
+      subst j. congruence.
+    - exfalso. eapply (Hap c1 c2 x y); eauto; try (unfold psig in *; congruence).
+      + unfold pool_id. unfold psig in *. intros H. inversion H. congruence.
+      + unfold contains. replace (p_geom c1) with (p_geom p1) by (unfold psig in E1; congruence). rewrite S1. reflexivity.
+      + unfold contains. replace (p_geom c2) with (p_geom p2) by (unfold psig in E2; congruence). rewrite S2. reflexivity. }
+  eapply nodup_map_inj; eauto.
+Qed.
+
+(* ---- PD pools with a well-formed geometry are well-formed pools (discharges pool_wf / resettable for PD) *)
+Lemma slot_lt b p c s x sl : slot_of (GPfx b p c s) x = Some sl -> sl < c.
+Proof.
+  unfold slot_of. destruct (snd x =? p); [|discriminate].
+  destruct (_ <? c * 2 ^ s); [|discriminate].
+  destruct (_ <? c) eqn:E; [|discriminate]. intros H; inversion H; subst. apply N.ltb_lt; exact E.
+Qed.
+
+Lemma pd_roundtrip b p c s sl :
+  pd_geom_wf (GPfx b p c s) -> sl < c -> slot_of (GPfx b p c s) (item_of (GPfx b p c s) sl) = Some sl.
+Proof.
+  intros (Hs & Hp & Hal & Hfit & Hc) Hl. unfold item_of, slot_of. cbn [fst snd]. rewrite N.eqb_refl.
+  set (k := 2 ^ s) in *. assert (Hk : k <> 0) by (apply N.pow_nonzero; discriminate).
+  assert (Hsm : b + sl * k < two128).
+  { assert (sl * k < c * k) by (apply N.mul_lt_mono_pos_r; lia). lia. }
+  rewrite (N.mod_small (b + sl * k)) by exact Hsm.
+  replace (b + sl * k + two128 - b) with (sl * k + 1 * two128) by lia.
+  rewrite N.mod_add by (unfold two128; discriminate).
+  assert (Hlt : sl * k < c * k) by (apply N.mul_lt_mono_pos_r; lia).
+  rewrite (N.mod_small (sl * k)) by lia.
+  assert (E1 : (sl * k <? c * k) = true) by (apply N.ltb_lt; exact Hlt). rewrite E1.
+  rewrite N.div_mul by exact Hk. rewrite N.mod_small by lia.
+  assert (E2 : (sl <? c) = true) by (apply N.ltb_lt; exact Hl). rewrite E2. reflexivity.
+Qed.
+
+Lemma pd_geom_ok g : pd_geom_wf g -> geom_ok g.
+Proof.
+  destruct g as [|b p c s]; [intros []|]. intros Hg x sl H. apply pd_roundtrip; [exact Hg|].
+  eapply slot_lt; exact H.
+Qed.
+
+Lemma new_pool_wf_pd f key prof vrf g : pd_geom_wf g -> pool_wf (new_pool f key prof vrf g).
+Proof.
+  intros Hg. pose proof (pd_geom_ok g Hg) as Hok. destruct g as [|b p c s]; [destruct Hg|].
+  assert (Hseq : forall n a x, In x (nseq a n) -> a <= x < a + N.of_nat n).
+  { induction n as [|n IH]; simpl; intros a x; [tauto|]. intros [<-|H]; [lia|]. apply IH in H. lia. }
+  assert (Hnd : forall n a, NoDup (nseq a n)).
+  { induction n as [|n IH]; simpl; intros a; constructor; auto. intros H. apply Hseq in H. lia. }
+  unfold pool_wf, new_pool, valid_slot, lease_of; cbn [p_geom p_free p_leases init_free].
+  split; [exact Hok|split; [apply Hnd|split; [reflexivity|split]]].
+  - intros sl H. apply Hseq in H. apply pd_roundtrip; [exact Hg|]. lia.
+  - simpl. discriminate.
+Qed.
+
+Lemma cfg_resettable ps :
+  (forall p, In p ps -> (exists lo hi ex, p_geom p = GRange lo hi ex) \/ pd_geom_wf (p_geom p)) ->
+  resettable (mkReg ps []) /\ (Forall (fun p => p = reset_pool p) ps -> Forall pool_wf ps).
+Proof.
+  intros H. assert (R : resettable (mkReg ps [])).
+  { intros p Hin. rewrite reset_is_new. destruct (H p Hin) as [(lo & hi & ex & E)|Hg].
+    - rewrite E. apply new_pool_wf_range.
+    - apply new_pool_wf_pd; exact Hg. }
+  split; [exact R|]. intros Hf. apply Forall_forall. intros p Hin.
+  eapply Forall_forall in Hf; [|exact Hin]. rewrite Hf. apply R; exact Hin.
 Qed.
